@@ -13,9 +13,10 @@
 //!
 //! Every cycle of the "invokes" graph therefore lies inside group B, where no new parameter expression is
 //! ever built: the set of reachable instructions is finite and a cycle is reported as `RecursiveCalibration`.
-use crate::progs::parse_all;
 use crate::rng::Rng;
 use quil_rs::instruction::Instruction;
+use quil_rs::Program;
+use std::str::FromStr;
 
 /// (name, number of parameters, number of qubits, group-A rank or None for group B)
 pub const GATES: [(&str, usize, usize, Option<u32>); 7] = [
@@ -32,10 +33,25 @@ pub const LITERALS: [&str; 8] = ["0", "1", "2", "0.5", "pi", "pi/2", "1.57079632
 pub const QVARS: [&str; 3] = ["q", "r", "s"];
 pub const PVARS: [&str; 2] = ["t", "u"];
 
+/// Parse a Quil text with the real parser into the instruction list of the resulting program. A text that
+/// does not parse is a bug of the generator: say so loudly (the harness silences panics) and stop.
+pub fn parse_all(text: &str) -> Vec<Instruction> {
+    match Program::from_str(text) {
+        Ok(p) => p.to_instructions(),
+        Err(e) => {
+            eprintln!("calgen: generated text does not parse: {text:?}: {e}");
+            std::process::exit(3);
+        }
+    }
+}
+
 /// Parse a text holding exactly one instruction (a whole DEFCAL counts as one).
 pub fn one(text: &str) -> Instruction {
     let v = parse_all(text);
-    assert_eq!(v.len(), 1, "not exactly one instruction: {text:?}");
+    if v.len() != 1 {
+        eprintln!("calgen: not exactly one instruction: {text:?}");
+        std::process::exit(3);
+    }
     v.into_iter().next().unwrap()
 }
 
